@@ -328,6 +328,7 @@ AUX = {
     "sl": ("sl", "_", ("choice", ("str", "a"), ("str", "b"))),
     "sf": ("sf", "_", ("seq", ("ref", "x"), ("str", "!"))),
     "sg": ("sg", "_", ("seq", ("ref", "x"), ("ref", "sf"))),
+    "sgrp": ("sgrp", "_", ("raw", '(x | "b" ~ x)', False, ("x",), ("choice", "seq", "ref", "str"))),  # a silent rule whose whole body is one parenthesised group
     "pf": ("pf", "", ("seq", ("pushlit", "a"), ("str", "!"))),
     "qf": ("qf", "", ("seq", ("pop",), ("str", "!"))),
 }
@@ -386,6 +387,8 @@ KINDS: dict[str, tuple[Expr, bool]] = {
     "repmin2": (("rep", A, 2, None), False),
     "repmax": (("rep", A, None, 2), False),
     "repminmax": (("rep", A, 1, 2), False),
+    "rep0min": (("rep", A, 0, None), False),  # an explicit 0 as the lower bound: e{0,} and e{0,n}
+    "rep0max": (("seq", ("rep", ("ref", "x"), 0, 2), ("opt", B)), False),
     "starx": (("star", ("ref", "x")), False),
     "plusx": (("plus", ("ref", "x")), False),
     "plusseq": (("plus", ("seq", A, B)), False),
@@ -412,6 +415,7 @@ KINDS: dict[str, tuple[Expr, bool]] = {
     "starpf": (("seq", ("star", ("ref", "pf")), ("peekall",)), False),
     "notpf": (("seq", ("not", ("ref", "pf")), ("peekall",)), False),
     "tagsilent": (("tag", "tg", ("ref", "s")), False),
+    "tagsilentgrp": (("seq", ("tag", "tg", ("ref", "sgrp")), ("opt", ("tag", "tg", ("ref", "sgrp")))), False),
     "tagrefnested": (("tag", "tg", ("ref", "xy")), False),
     "tagrefnested2": (("seq", ("tag", "tg", ("ref", "xy")), ("opt", ("tag", "tg", ("ref", "x")))), False),
     "tagplus": (("raw", "#tg = (x)+", False, ("x",), ("tag", "plus")), False),
